@@ -94,6 +94,13 @@ func c17Make(r *fw.Rand, tokBase int) *c17Doc {
 			p.Extra = append(p.Extra, &gen.Spec{Tag: tag, Value: "fact", Kids: []*gen.Spec{{Tag: "PLAC", Value: next() + ", " + next()}}})
 		}
 	}
+	// surnames that are not listed under a letter from a to z: a digit, a
+	// symbol, a letter outside a-z, no surname at all (living and dead people)
+	for _, p := range g.People {
+		if r.Chance(1, 6) {
+			p.Surname = []string{"9" + next(), "(" + next() + ")", "Ö" + strings.ToLower(next()), "", "'t " + next(), "小" + next()}[r.Intn(6)]
+		}
+	}
 	// family events happen somewhere too: the place pages then list events
 	// that belong to a couple, not to one individual
 	for _, f := range g.Families {
@@ -138,6 +145,20 @@ func c17Make(r *fw.Rand, tokBase int) *c17Doc {
 			p.NameSub = append(p.NameSub, &gen.Spec{Tag: "NICK", Value: nick}, &gen.Spec{Tag: "NPFX", Value: npfx})
 			t["nickname"] = []string{nick}
 			t["name-prefix"] = []string{npfx}
+		}
+		// what a non-living person's page shows besides names: the places of
+		// their events and of the events of the families they founded (these
+		// kinds are not name tokens: they are never searched as "sensitive")
+		words := func(place string) []string {
+			return strings.FieldsFunc(place, func(r rune) bool { return r == ',' || r == ' ' })
+		}
+		for _, e := range p.Events {
+			t["place:own-event"] = append(t["place:own-event"], words(e.Place)...)
+		}
+		for _, fi := range p.FamS {
+			for _, e := range g.Families[fi].Events {
+				t["place:family-event"] = append(t["place:family-event"], words(e.Place)...)
+			}
 		}
 		d.tokens[p.Idx] = t
 	}
@@ -308,6 +329,9 @@ func c17Run(c *fw.Ctx, i int) {
 	for _, p := range d.g.People {
 		if d.living[p.Idx] {
 			for kind, ts := range d.tokens[p.Idx] {
+				if strings.HasPrefix(kind, "place:") {
+					continue
+				}
 				for _, t := range ts {
 					if lt := strings.ToLower(t); len(lt) >= 6 && !deadTokens[lt] {
 						sensitive = append(sensitive, sens{lt, kind, p.Ptr})
